@@ -47,8 +47,10 @@ EventsViewR ==
        \E from \in R({TagId("pre_confirmed"), TagId("pre_confirmed"), TagId("latest")} \cup {NumId(n) : n \in ViewNums}) :
          GetEventsAll(f, from, TagId("pre_confirmed"), c)
 EventsErrR ==
-  \/ \E f \in R(MCFiltersAll), c \in R({0, BigChunk}) : GetEventsAll(f, NoId, NoId, c)
-  \/ \E f \in R(MCFiltersAll) : GetEventsAll([f EXCEPT !.huge = TRUE], NoId, NoId, 2)
+  \/ \E f \in R(MCFiltersAll), c \in R({0, MaxChunk, BigChunk}) : GetEventsAll(f, NoId, NoId, c)
+  \/ \E f \in R(MCFiltersAll), hg \in R({1, 2}) : GetEventsAll([f EXCEPT !.huge = hg], NoId, NoId, 2)
+  \/ \E f \in R(MCFiltersAll), g \in R(0..3), tk \in R({"none", "pre_confirmed"}) :
+       GetEventsPage(f, NoId, TagId(tk), 2, [b |-> -7, p |-> g])
   \/ \E f \in R(MCFiltersAll), k \in R({"hash", "l1_accepted"}) :
        \E id \in R(IdsM(k)), side \in R({0, 1}) :
          GetEventsAll(f, IF side = 0 THEN id ELSE NoId, IF side = 1 THEN id ELSE NoId, 2)
